@@ -45,6 +45,8 @@ class Universe:
         self.net = sm.Network(name="replay")
 
     def get(self, i: str):
+        if i == "None":      # Python's None where a node is expected (networkx refuses it)
+            return None
         if self.shared and i not in self.obj and i in POOL:
             self.obj[i] = POOL[i]
             self.ido[id(POOL[i])] = i
@@ -94,13 +96,13 @@ class Universe:
                 return tuple(items)
             if spell == 2:
                 return (z for z in items)
-            if spell == 3 and items and isinstance(items[0], tuple):
+            if spell == 3 and items and isinstance(items[0], tuple) and len({len(z) for z in items}) == 1:
                 return zip(*[list(col) for col in zip(*items)])
             return items
         if op == "add_nodes":
             args = iterable(g(i) for i in c[1])
         elif op == "add_links":
-            args = iterable((g(a), g(b), g(d)) for a, b, d in c[1])
+            args = iterable(tuple(g(z) for z in t_) for t_ in c[1])   # (a tuple of another length is a malformed description)
         elif op == "add_path":
             args = (iterable(g(i) for i in c[1]), g(c[2]) if c[2] else None, g(c[3]) if c[3] else None)
         elif op in ("add_node", "out_links", "in_links"):
@@ -246,7 +248,7 @@ def same_dict(a, b) -> bool:
     return as_set(a) == as_set(b)
 
 
-def replay_transition(t: dict, read_each: bool = False) -> dict:
+def replay_transition(t: dict, read_each: bool = False, ask_each: bool = False) -> dict:
     """replay one TLC transition (history h, last call's expected result and post-state); returns findings"""
     U = Universe(shared=zlib.crc32(json.dumps(t["h"]).encode()) % 2 == 1)
     out = {"c08": [], "c09": [], "c06": [], "drift": []}
@@ -256,6 +258,12 @@ def replay_transition(t: dict, read_each: bool = False) -> dict:
         if last is not None and last[0] == "error":
             failed_before = True   # partial effects of a failing call are not part of any verdict
         last = U.call(c)
+        if ask_each and c is not t["h"][-1]:
+            # the caller asks whether the network is valid after every call (whatever validation memoises is then in place)
+            try:
+                U.net.is_valid(raises=False)
+            except BaseException:  # noqa: BLE001
+                pass
         if read_each:   # the history with every lookup read after every call
             allr_, rec_ = U.read_all(), U.recompute()
             for k_ in LOOKUPS:
